@@ -151,6 +151,8 @@ func sameObs(a, b []obsMetric) string {
 type runCase struct {
 	Kind    string      `json:"kind"`
 	Flag    string      `json:"flag"`
+	GenSeed uint64      `json:"gen_seed"`
+	NLines  int         `json:"nlines"`
 	Src     string      `json:"src"`
 	Lines   []string    `json:"lines"`
 	Errs    []bool      `json:"errs"`
@@ -210,14 +212,14 @@ func className(flag, what string) string {
 
 type stats struct{ accepted, rejected, lines, errLines, changed int }
 
-func doProgram(out *vlib.Out, p *gen.Program, lines []string, st *stats) {
+func doProgram(out *vlib.Out, p *gen.Program, lines []string, st *stats, seed uint64, nl int) {
 	flag := ""
 	if len(p.Flags) > 0 {
 		flag = p.Flags[0]
 	}
 	src := p.Source()
 	core := p.Expand()
-	rc := runCase{Kind: "run", Flag: flag, Src: src, Lines: vlib.Qs(lines)}
+	rc := runCase{Kind: "run", Flag: flag, Src: src, Lines: vlib.Qs(lines), GenSeed: seed, NLines: nl}
 	for k, v := range p.Features {
 		if v > 0 {
 			out.Count(k)
@@ -445,18 +447,15 @@ func main() {
 	}
 	st := &stats{}
 	for i := 0; i < nmain; i++ {
-		r := rng.Fork()
-		cfg := gen.DefaultConfig()
-		p := gen.Generate(r, cfg)
-		doProgram(out, p, p.Lines(r, nlines), st)
+		seed := rng.Uint64()
+		p, lines := regen(seed, "", nlines)
+		doProgram(out, p, lines, st, seed, nlines)
 	}
 	for _, f := range gen.AllFlags {
 		for i := 0; i < nflag; i++ {
-			r := rng.Fork()
-			cfg := gen.DefaultConfig()
-			cfg.Flag = f
-			p := gen.Generate(r, cfg)
-			doProgram(out, p, p.Lines(r, 3), st)
+			seed := rng.Uint64()
+			p, lines := regen(seed, f, 3)
+			doProgram(out, p, lines, st, seed, 3)
 		}
 	}
 	out.Extra["programs_accepted"] = st.accepted
@@ -465,6 +464,15 @@ func main() {
 	out.Extra["lines_with_runtime_error_in_reference"] = st.errLines
 	out.Extra["programs_changing_the_store"] = st.changed
 	out.Flush("a run case is non-trivial if the final store differs from the freshly loaded one (some line matched and wrote a metric); a codegen case if the program has at least one conditional", false)
+}
+
+// regen rebuilds program and lines from a recorded generator seed.
+func regen(seed uint64, flag string, nlines int) (*gen.Program, []string) {
+	r := vlib.NewRand(seed)
+	cfg := gen.DefaultConfig()
+	cfg.Flag = flag
+	p := gen.Generate(r, cfg)
+	return p, p.Lines(r, nlines)
 }
 
 func replay(path string) {
@@ -481,13 +489,21 @@ func replay(path string) {
 		os.Exit(1)
 	}
 	rr := runReal(obj, lines)
+	p, _ := regen(c.GenSeed, c.Flag, c.NLines)
+	core := p.Expand()
+	lib, _ := gen.NewLib(core, fileName)
+	st := gen.NewStore(core)
 	for i, l := range lines {
-		fmt.Printf("line %d %q: error=%v %s\n", i, l, rr.errs[i], rr.msgs[i])
+		ro := core.RefLine(st, lib, l)
+		fmt.Printf("line %d %q: implementation error=%v %s | reference outcome %q\n", i, l, rr.errs[i], rr.msgs[i], ro)
+		ref := refObs(core, st)
 		for j, m := range rr.snaps[i] {
-			fmt.Printf("   metric %d (%s): %+v\n", j, m.Type, m.Data)
+			fmt.Printf("   metric %d impl (%s): %+v\n", j, m.Type, m.Data)
+			fmt.Printf("   metric %d ref  (%s): %+v\n", j, ref[j].Type, ref[j].Data)
+		}
+		if d := sameObs(ref, rr.snaps[i]); d != "" {
+			fmt.Println("   DIFFERENCE:", d)
 		}
 	}
-	fmt.Println("recorded at check time: errs", c.Errs)
-	fmt.Println("(the reference side is recomputed by `tools/vcheck C01`; this replay shows the implementation)")
 	os.Exit(1)
 }
